@@ -147,6 +147,15 @@ Theorem C02_v1_signed_input_injective : forall enc m f enc' m' f',
   v1_ppre enc m f = v1_ppre enc' m' f' -> (enc, m, f) = (enc', m', f').
 Proof. exact v1_ppre_injective. Qed.
 
+(* v2.local (AEAD): any other tag on the same nonce and ciphertext is refused — the only premise is the AEAD
+   fact that at most one tag opens a given (key, nonce, associated data, ciphertext) *)
+Theorem C02_v2_tag_tamper : forall O, laws O -> forall key enc n c t t' f m,
+  length n = 24 -> length t = 16 -> length t' = 16 ->
+  v2_local_unseal O key enc (n ++ c ++ t) f [] = Ok m -> t' <> t ->
+  v2_local_unseal O key enc (n ++ c ++ t') f [] = Err CryptoError.
+Proof. exact v2_tag_tamper. Qed.
+
+Print Assumptions C02_v2_tag_tamper.
 Print Assumptions C02_v1_is_generic.
 Print Assumptions C02_v3_is_generic.
 Print Assumptions C02_v3_awslc_is_generic.
